@@ -131,11 +131,15 @@ BUILTIN_LOOPS = [("last(range(@N))", "@N-1"), ("reduce limit(@N; repeat(1)) as $
 
 def measure_rss(argv, stdin=b"", stack_kb=512, timeout=120):
     sh = "ulimit -s %d; exec /usr/bin/time -f 'RSSKB %%M' \"$0\" \"$@\"" % stack_kb
-    p = subprocess.Popen(["/bin/sh", "-c", sh] + argv, stdin=subprocess.PIPE, stdout=subprocess.PIPE, stderr=subprocess.PIPE)
+    p = subprocess.Popen(["/bin/sh", "-c", sh] + argv, stdin=subprocess.PIPE, stdout=subprocess.PIPE, stderr=subprocess.PIPE, start_new_session=True)
     try:
         out, err = p.communicate(stdin, timeout=timeout)
     except subprocess.TimeoutExpired:
-        p.kill()
+        import signal
+        try:
+            os.killpg(p.pid, signal.SIGKILL)      # /usr/bin/time and the program it runs
+        except ProcessLookupError:
+            pass
         p.communicate()
         return -999, b"", 0, b"timeout"
     rss = 0
